@@ -39,6 +39,8 @@ def std_registry(kind: str) -> List[Dict[str, Any]]:
         # async dispatcher only: a coroutine method behind a plain (non-async) decorator
         {'name': 'wrapped', 'params': [P('a', default=None)], 'flavour': 'wcoro' if kind == 'async' else 'func', 'ctx': 'none'},
         {'name': 'bad.get', 'params': [P('a', default=None)], 'flavour': av, 'ctx': 'view', 'ctor_raises': True},
+        # a method name with a leading underscore (legal in JSON-RPC; registered under an explicit name)
+        {'name': '_us', 'params': [P('a', default=None)], 'flavour': 'func', 'ctx': 'none'},
     ]
 
 
